@@ -25,9 +25,17 @@ import (
 
 func init() { runners["logidx"] = runLogIndex }
 
-// loggerRuntime: calldata[0] = number of LOG0 to emit, calldata[1] != 0 => REVERT afterwards.
+// loggerRuntime: calldata[0] = number of LOG0 to emit, calldata[1] != 0 => REVERT afterwards,
+// calldata[2] != 0 => first call itself with [calldata[3], 1]: an inner frame that emits calldata[3] logs and reverts
+// (its logs must vanish), the failure is ignored and the outer frame goes on.
 func loggerRuntime() []byte {
 	a := easm.New()
+	a.Push(2).Op(easm.CALLDATALOAD).Push(0xf8).Op(easm.SHR).Op(easm.ISZERO).JumpiTo("main")
+	a.Push(3).Op(easm.CALLDATALOAD).Push(0xf8).Op(easm.SHR).Push(0).Op(easm.MSTORE8)
+	a.Push(1).Push(1).Op(easm.MSTORE8)
+	a.Push(0).Push(2).Op(easm.MSTORE8)
+	a.Push(0).Push(0).Push(3).Push(0).Push(0).Op(easm.ADDRESS, easm.GAS, easm.CALL, easm.POP)
+	a.Label("main")
 	a.Push(0).Op(easm.CALLDATALOAD).Push(0xf8).Op(easm.SHR) // n
 	a.Label("loop").Op(easm.DUP1, easm.ISZERO).JumpiTo("end")
 	a.Push(0).Push(0).Op(easm.LOG0)
@@ -137,7 +145,10 @@ func runLogIndex(r *hx.R, n int, w *hx.W, _ []string) error {
 			case ch < 6: // an Ethereum tx to the logger
 				nlogs := r.Pick(5)
 				mode := "ok"
-				data := []byte{byte(nlogs), 0}
+				data := []byte{byte(nlogs), 0, 0, 0}
+				if r.Chance(1, 3) { // an inner frame that logs and reverts before the outer logs
+					data[2], data[3] = 1, byte(1+r.Pick(3))
+				}
 				gas := uint64(300_000)
 				switch r.Pick(8) {
 				case 0:
